@@ -513,6 +513,10 @@ pub struct Gen<'a, 'b> {
     pub counter: usize,
     /// names that exist anywhere in the program (integer literals must not spell them)
     pub all_names: BTreeSet<Vec<u8>>,
+    /// inside a defconst expression: function names as values are not generated there (a
+    /// defconst whose value mentions a function as a value sends the compiler into unbounded
+    /// recursion -- known finding under C14; excluded here by construction so the search goes on)
+    pub in_defconst: bool,
 }
 
 type Scope = Vec<(String, Ty)>;
@@ -576,6 +580,7 @@ impl<'a, 'b> Gen<'a, 'b> {
             feats: BTreeSet::new(),
             counter: 0,
             all_names: BTreeSet::new(),
+            in_defconst: false,
         }
     }
 
@@ -1062,7 +1067,7 @@ impl<'a, 'b> Gen<'a, 'b> {
             .filter(|f| !f.inline && f.rest.is_none() && !f.recursive && f.ret == **ret && f.params.len() == args.len() && f.params.iter().zip(args.iter()).all(|(p, t)| is_sub(t, &pat_ty(p))))
             .map(|f| f.name.clone())
             .collect();
-        if !cands.is_empty() && self.c.chance(110) && self.cfg.allow_lambda {
+        if !cands.is_empty() && self.c.chance(110) && self.cfg.allow_lambda && !self.in_defconst {
             self.feat("function-name-as-value");
             return Expr::FunRef(cands[self.c.pick(cands.len())].clone());
         }
@@ -1417,7 +1422,9 @@ impl<'a, 'b> Gen<'a, 'b> {
                 self.feat("defconst");
                 let ty = self.gen_leaf_ty();
                 // closed expression: constants and non-recursive functions only
+                self.in_defconst = true;
                 let expr = self.gen_expr(&ty, &vec![], 2);
+                self.in_defconst = false;
                 self.consts.push((name.clone(), ty.clone()));
                 Helper::Defconst { name, expr, ty }
             }
